@@ -42,6 +42,10 @@ func init() {
 			dj := c.mcHolds("GenDisj", "GenDisj.cfg", tlcOpts{})
 			dc, dr := c.replay("engine", dj.cases, replayOpts{})
 			c.judge("engine", dc, dr, func(cs, res map[string]J) string { in, _ := res["input"].(string); return in })
+			// head shapes x cuts: a clause whose head does not unify (a repeated variable, too) cuts nothing
+			ch := c.mcHolds("GenCutHead", "GenCutHead.cfg", tlcOpts{})
+			hc, hr := c.replay("engine", ch.cases, replayOpts{})
+			c.judge("engine", hc, hr, func(cs, res map[string]J) string { in, _ := res["input"].(string); return in })
 			c.engineTV(tvN(c), "cut")
 			c.exhaustive = true
 		},
